@@ -166,6 +166,16 @@ pub fn check_c03(tier: Tier) -> i32 {
     }
     let mut violations = bh.violations.clone();
     violations.extend(bg.violations.clone());
+    let mut miri: Vec<Value> = Vec::new();
+    if tier == Tier::Thorough {
+        for (part, n) in [("gc", 64u64), ("programs", 24u64)] {
+            let (ran, summary, v) = miri_adjunct("C03", seed, part, n);
+            miri.push(json!({"part": part, "n": n, "ran": ran, "summary": summary}));
+            if let Some(v) = v {
+                violations.push(v);
+            }
+        }
+    }
     let nviol = violations.len();
     let verdict = orch::conclude("C03", violations, &harness_errors);
     let wall = t0.elapsed().as_secs_f64();
@@ -210,6 +220,7 @@ pub fn check_c03(tier: Tier) -> i32 {
             "counters": {"heap_sim": counters_json(ah), "gc_sim": counters_json(ag)},
             "determinism_selftest_scenarios_compared": selftest,
             "components": orch::components(),
+            "miri_adjunct": miri,
             "warnings": warnings,
             "candidate_violations": nviol,
             "known_findings_matched": verdict.known,
@@ -257,7 +268,15 @@ pub fn check_c17(tier: Tier) -> i32 {
     } else {
         0
     };
-    let violations = batch.violations.clone();
+    let mut violations = batch.violations.clone();
+    let mut miri: Vec<Value> = Vec::new();
+    if tier == Tier::Thorough {
+        let (ran, summary, v) = miri_adjunct("C17", seed, "sessions", 10);
+        miri.push(json!({"part": "sessions", "n": 10, "ran": ran, "summary": summary}));
+        if let Some(v) = v {
+            violations.push(v);
+        }
+    }
     let nviol = violations.len();
     let verdict = orch::conclude("C17", violations, &harness_errors);
     let acc = &batch.acc;
@@ -297,6 +316,7 @@ pub fn check_c17(tier: Tier) -> i32 {
             "counters": counters_json(acc),
             "determinism_selftest_scenarios_compared": selftest,
             "components": orch::components(),
+            "miri_adjunct": miri,
             "warnings": warnings,
             "candidate_violations": nviol,
             "known_findings_matched": verdict.known,
@@ -425,6 +445,14 @@ pub fn check_c16(tier: Tier) -> i32 {
     } else {
         0
     };
+    let mut miri: Vec<Value> = Vec::new();
+    if tier == Tier::Thorough {
+        let (ran, summary, v) = miri_adjunct("C16", seed, "threads", 6);
+        miri.push(json!({"part": "threads (3 plain threads, no baton: Miri's scheduler and data-race detector)", "n": 6, "ran": ran, "summary": summary}));
+        if let Some(v) = v {
+            violations.push(v);
+        }
+    }
     let nviol = violations.len();
     let verdict = orch::conclude("C16", violations, &harness_errors);
     let _ = std::fs::remove_file(&refs_path);
@@ -474,6 +502,7 @@ pub fn check_c16(tier: Tier) -> i32 {
             "counters": counters_json(acc),
             "determinism_selftest_scenarios_compared": selftest,
             "components": orch::components(),
+            "miri_adjunct": miri,
             "warnings": warnings,
             "candidate_violations": nviol,
             "known_findings_matched": verdict.known,
@@ -492,4 +521,45 @@ pub fn check_c16(tier: Tier) -> i32 {
         b.len(), discarded, get(acc, "history_sequences"), get(acc, "thread_runs"), get(acc, "fault_preemption"), dev_compared, nontrivial, verdict.reported, verdict.known, wall
     );
     verdict.exit
+}
+
+/// Thorough tier: the Miri adjunct (DESIGN.md 3.11). Returns (ran, summary, violation).
+pub fn miri_adjunct(property: &str, seed: u64, part: &str, n: u64) -> (bool, String, Option<crate::acc::Violation>) {
+    let dir = orch::verif_dir().join("sim");
+    let out = std::process::Command::new("cargo")
+        .current_dir(&dir)
+        .env("MIRIFLAGS", "-Zmiri-permissive-provenance -Zmiri-disable-stacked-borrows")
+        .env("CARGO_NET_OFFLINE", "true")
+        .args(["+nightly", "miri", "run", "--offline", "--quiet", "--", "miri", &seed.to_string(), part, &n.to_string()])
+        .output();
+    let out = match out {
+        Ok(o) => o,
+        Err(e) => return (false, format!("miri not available: {}", e), None),
+    };
+    let stdout = String::from_utf8_lossy(&out.stdout).to_string();
+    let stderr = String::from_utf8_lossy(&out.stderr).to_string();
+    if stderr.contains("is not installed") || stderr.contains("no such command") || stderr.contains("toolchain 'nightly") {
+        return (false, format!("miri not available: {}", stderr.lines().next().unwrap_or("")), None);
+    }
+    let ok_line = stdout.lines().find(|l| l.starts_with("miri-adjunct"));
+    if out.status.success() && ok_line.map(|l| l.ends_with("problems=0")).unwrap_or(false) {
+        return (true, ok_line.unwrap().to_string(), None);
+    }
+    let err = stderr
+        .lines()
+        .find(|l| l.starts_with("error"))
+        .or_else(|| stdout.lines().find(|l| l.contains("finding") || l.contains("!=")))
+        .unwrap_or("miri run failed")
+        .to_string();
+    let key: String = err.chars().filter(|c| !c.is_ascii_digit()).take(60).collect();
+    let v = crate::acc::Violation {
+        property: property.to_string(),
+        class: "miri".into(),
+        key: key.clone(),
+        detail: format!("Miri adjunct part {} (seed {}, n {}): {}", part, seed, n, err),
+        spec: json!({"engine": "miri-adjunct", "kind": "miri", "part": part, "seed": seed, "n": n, "expect": {"class": "miri", "key": key}}),
+        seed,
+        index: 0,
+    };
+    (true, err, Some(v))
 }
